@@ -1173,8 +1173,12 @@ func StructLits(fn *ssa.Function, typ string) []Lit {
 		if !ok {
 			return
 		}
-		n := namedOf(a.Type())
-		if n == nil || n.Obj().Name() != typ {
+		pt, ok := a.Type().(*types.Pointer)
+		if !ok {
+			return
+		}
+		n, ok := types.Unalias(pt.Elem()).(*types.Named)
+		if !ok || n.Obj().Name() != typ {
 			return
 		}
 		if _, ok := n.Underlying().(*types.Struct); !ok {
